@@ -21,9 +21,30 @@ def spec(name, layout, dst1, dst2, queue=True, skip=False, options=(),
     return s
 
 
+def create_spec(queue, depth):
+    """Branch creation (with explicit branching points) in states where
+    destination branches have moved."""
+    jobs = []
+    for name in ('development/4.4', 'development/5.0', 'development/10.1',
+                 'stabilization/5.1.0', 'stabilization/4.3.0'):
+        for frm in ('', '@development/4.3~1', '@development/10.0~1',
+                    '@development/5.1', 'development/4.3'):
+            jobs.append(['create_branch', name] + ([frm] if frm else []))
+    return {'driver': 'admin', 'name': 'create-%s-D3' % (
+        'q' if queue else 'noq'),
+        'config': {'layout': 'D3', 'queue': queue, 'skip_queue': False,
+                   'options': BYPASS_REVIEW + ['bypass_build_status']},
+        'init': [['open', PR1, 'development/4.3'],
+                 ['open', PR2, 'development/5.1']],
+        'monitors': ['c01'], 'pushes': 0, 'per_q_ci': False,
+        'statuses_int': [], 'statuses_q': ['SUCCESSFUL'],
+        'admin_jobs': jobs, 'max_depth': depth}
+
+
 def specs(tier):
     if tier == 'quick':
         return [
+            create_spec(False, 3),
             spec('q-S3', 'S3', 'stabilization/4.3.18', 'development/4.3',
                  depth=6),
             spec('skipq-M3', 'M3', 'development/4.3', 'development/4.3',
@@ -35,7 +56,7 @@ def specs(tier):
                  'stabilization/4.3.18', queue=False, depth=4, pushes=1,
                  options=['bypass_build_status'], statuses_int=[]),
         ]
-    out = []
+    out = [create_spec(False, 4), create_spec(True, 5)]
     admin = [['rebuild_queues'], ['delete_queues'], ['force_merge']]
     for layout, d1, d2 in [
             ('D1', 'development/4.3', 'development/4.3'),
